@@ -55,8 +55,8 @@ def guided_input(machine, choices, max_len=24, alphabet=()):
         if c is None:
             break
         good, err = next_labels(machine, cfg.state)
-        mode = c & 7
-        pick = c >> 3
+        mode = c & 15
+        pick = c >> 4
         if good and mode != 0:
             b = good[pick % len(good)]
         elif mode == 0 and err and (pick & 1):
